@@ -92,6 +92,68 @@ def quick_configs(prop_id, landmarks=configs.LANDMARKS, extra_files=()):
     return out, lad
 
 
+# headers every property's code goes through; their compiler / language-level conditionals are part of every property's
+# build dimension (their feature-macro conditionals are not used for the configuration cover)
+SHARED_FILES = ['include/avel/Misc.hpp', 'include/avel/impl/Traits.hpp', 'include/avel/impl/Sizes.hpp', 'include/avel/Vector.hpp',
+                'include/avel/impl/vectors/Vectors.hpp', 'include/avel/impl/Constants.hpp', 'include/avel/Scalar.hpp',
+                'include/avel/impl/Capabilities.hpp', 'include/avel/Aligned_allocator.hpp', 'include/avel/Cache.hpp']
+BUILD_DIM_CFGS = ['none', 'SSE2', 'AVX2', 'ALL']
+
+
+def build_dimension(prop_id, cfgs, planned, extra_files=()):
+    """Preprocessor rungs (and implicit #else's) in the property's anchored files + the shared headers whose selection
+    depends on the compiler or on __cplusplus and which none of the planned (config, compiler, std) builds compiles.
+    Returns (extra builds [(cfg, compiler, std)], report).  Every needed (compiler, std) pair is run on the landmark
+    configurations, because a shared rung (e.g. the bit_cast fallback) is reached from many feature-macro rungs."""
+    files = [f for f in PROPS[prop_id]['anchors']['files'] if f.endswith('.hpp')] + list(extra_files)
+    files += [f for f in SHARED_FILES if f not in files]
+    groups = []
+    for rel in files:
+        p = os.path.join(REPO, rel)
+        if os.path.isfile(p):
+            groups.extend(ladder.parse_file(p, rel))
+    sel = {}
+    for c in cfgs:
+        for comp in ('g++', 'clang++'):
+            for std in (11, 14, 17, 20):
+                sel[(frozenset(c), comp, std)] = ladder.selected_rungs(groups, ladder.Env(c, comp, std), implicit_else=True)
+    covered = set()
+    for k in planned:
+        covered |= sel.get((frozenset(k[0]), k[1], k[2]), set())
+    universe = set()
+    for s_ in sel.values():
+        universe |= s_
+    need = universe - covered
+    report = {'rungs_needing_other_compiler_or_std': sorted('%s:%d' % r for r in need)}
+    extra = []
+    names = {configs.name(c): frozenset(c) for c in cfgs}
+    lm = [names[n] for n in BUILD_DIM_CFGS if n in names]
+    while need:
+        # the (compiler, std) pair that reaches most of the still-needed rungs over the landmark configurations
+        best, gain = None, set()
+        for comp in ('clang++', 'g++'):
+            for std in (11, 14, 17, 20):
+                g = set()
+                for c in (lm or [frozenset(c) for c in cfgs]):
+                    g |= sel[(c, comp, std)] & need
+                if len(g) > len(gain):
+                    best, gain = (comp, std), g
+        if best is None:
+            # only reachable from a non-landmark configuration: take single builds
+            k = max(sel, key=lambda k_: len(sel[k_] & need))
+            if not (sel[k] & need):
+                break
+            extra.append(k)
+            need -= sel[k]
+            continue
+        for c in lm:
+            extra.append((c, best[0], best[1]))
+        need -= gain
+    report['extra_builds'] = ['%s/%s-c++%d' % (configs.name(c), comp, std) for c, comp, std in extra]
+    report['rungs_not_reached_by_any_build'] = sorted('%s:%d' % r for r in need)
+    return extra, report
+
+
 def thorough_configs(prop_id, extra_files=()):
     lad = ladder_for(prop_id, extra_files)
     out = []
@@ -297,22 +359,29 @@ def finish(res, level='exploration', rule='', assumptions=(), min_cells=1):
     rc = 0
     seen = set()
     viol_lines = []
+    MAX_LINES = 250      # one line + one replay file per distinct (type, op, kind, config, build); more adds nothing
+    suppressed = 0
     for r in unlisted:
+        rc = 1
+        sig = (r.get('type'), r.get('op'), r.get('kind'), r.get('config'), r.get('compiler'), r.get('variant'))
+        if sig in seen:
+            continue
+        seen.add(sig)
+        if len(viol_lines) >= MAX_LINES:
+            suppressed += 1
+            continue
         p = replay_path(prop, r)
         if not os.path.exists(p):
             json.dump({'property': prop, 'record': {k: v for k, v in r.items() if k != 'detail'},
                        'detail': r.get('detail', ''), 'tier': res.tier, 'seed': res.seed,
                        'replay_cmd': 'bin/vcheck replay %s' % p}, open(p, 'w'), indent=1)
-        sig = (r.get('type'), r.get('op'), r.get('kind'), r.get('config'), r.get('compiler'), r.get('variant'))
-        if sig in seen:
-            continue
-        seen.add(sig)
         viol_lines.append('VIOLATION property=%s replay=%s' % (prop, p))
         if len(viol_lines) <= 40:
             log('  unlisted: %s %s %s cfg=%s %s/%s in=%s got=%s exp=%s' % (
                 r.get('kind'), r.get('type'), r.get('op'), r.get('config'), r.get('compiler'), r.get('variant'),
                 r.get('in'), str(r.get('got'))[:80], str(r.get('exp'))[:80]))
-        rc = 1
+    if suppressed:
+        log('  (%d further distinct violating (type, op, kind, config, build) groups not printed; all are in .work/last/%s.records.json)' % (suppressed, prop))
     # evidence
     evaluations = sum(c['cases'] for _, c in res.cells)
     lanes = sum(c.get('lanes', 0) for _, c in res.cells)
